@@ -66,7 +66,7 @@ def enum_shard(st, shard, nshards, payload):
     L = fm.lang('CTL')
     idx = -1
     for (n, k, stride) in payload['scopes']:
-        forms = fm.ctl_formulas(k)
+        forms = ctl_scope(k)
         objs = [fm.to_lib(f, L) for f in forms]
         fpairs = [sorted(pairs_in(f)) for f in forms]
         for K in scope_iter(n, stride, nshards):
@@ -109,6 +109,14 @@ def enum_shard(st, shard, nshards, payload):
                 if nt and (fi % 37 == 0):
                     st.sample({'K': K, 'f': f, 'expected': ref.mask_to_list(exp)},
                               cls='n%d-%s' % (n, ','.join(fpairs[fi])))
+
+
+def ctl_scope(k):
+    """k = operator bound, or 'k3' = every 37th CTL formula with exactly 3 operators over {p,q}
+    (1 725 of 63 798, by mixed-radix decoding): depth-3 nestings such as EG under AU under not."""
+    if k == 'k3':
+        return fm.enum_strided(fm.CTL_UN, fm.CTL_BIN, (fm.P, fm.Q), 3, 37)
+    return fm.ctl_formulas(k)
 
 
 def scope_iter(n, stride, nshards):
@@ -198,14 +206,20 @@ def run(ctx):
                 'empty nor all states; exhaustive cases distinct by construction, random ones '
                 'counted by digest of (K, f).')
     if ctx.thorough:
-        scopes = [(1, 2, 1), (2, 2, 1), (3, 1, 1), (3, 2, 97), (4, 1, 211)]
+        scopes = [(1, 2, 1), (2, 2, 1), (3, 1, 1), (3, 2, 97), (4, 1, 211), (3, 'k3', 11), (4, 'k3', 20011),
+                  (4, 2, 20011), (5, 1, 4000037)]
         ctx.scopes = ['S(1)+S(2) x CTL k<=2 (8964 formulas)', 'S(3) x CTL k<=1 (144 formulas)',
                       'every 97th structure of S(3) x CTL k<=2',
-                      'every 211th structure of S(4) (61422 of 12.96 M) x CTL k<=1']
+                      'every 211th structure of S(4) (61422 of 12.96 M) x CTL k<=1',
+                      'every 11th of S(3) and every 20011th of S(4) x k3 (every 37th CTL formula with exactly 3 operators over p,q)',
+                      'every 20011th of S(4) x CTL k<=2', 'every 4000037th of S(5) x CTL k<=1']
     else:
-        scopes = [(1, 2, 1), (2, 1, 1), (2, 2, 9), (3, 1, 8), (4, 1, 4001)]
+        scopes = [(1, 2, 1), (2, 1, 1), (2, 2, 9), (3, 1, 8), (4, 1, 4001), (3, 'k3', 101), (4, 'k3', 400009),
+                  (5, 1, 40000003)]
         ctx.scopes = ['S(1) x CTL k<=2', 'S(2) x CTL k<=1', 'every 9th of S(2) x CTL k<=2',
-                      'every 8th of S(3) x CTL k<=1', 'every 4001st of S(4) x CTL k<=1']
+                      'every 8th of S(3) x CTL k<=1', 'every 4001st of S(4) x CTL k<=1',
+                      'every 101st of S(3) and every 400009th of S(4) x k3 (every 37th CTL formula with exactly 3 operators over p,q)',
+                      'every 40000003rd of S(5) x CTL k<=1']
     ctx.exhaustive = True
     ctx.assumptions = ['reference semantics vp/ref.py (R-CTL, cross-checked against R-STAR in '
                        'the random tier and on replay) is the trusted base']
